@@ -189,9 +189,10 @@ type valueQuery struct {
 }
 
 type candidate struct {
-	Args   []string          `json:"args"`   // Go literals, one per parameter
-	Values map[string]string `json:"values"` // raw solver values
-	Source string            `json:"source"` // full-model | relaxed-model
+	Imports map[string]string `json:"imports,omitempty"` // path -> name used in the literals
+	Args    []string          `json:"args"`              // Go literals, one per parameter
+	Values  map[string]string `json:"values"`            // raw solver values
+	Source  string            `json:"source"`            // full-model | relaxed-model
 }
 
 // goLiteral builds a Go literal for a value of type T whose SMT term is t, looking values up with get(term).
@@ -200,6 +201,29 @@ func (x *Exec) goLiteral(T types.Type, t string, get func(string) *sexp, q types
 		return "", false
 	}
 	tn := types.TypeString(T, q)
+	switch namedPath(T) {
+	case "cosmossdk.io/math.Int", "cosmossdk.io/math.LegacyDec":
+		v := get(t)
+		if v == nil {
+			return "", false
+		}
+		iv, ok := sexpInt(v)
+		if !ok {
+			return "", false
+		}
+		mq := q(T.(*types.Named).Obj().Pkg())
+		if namedPath(T) == "cosmossdk.io/math.Int" {
+			return fmt.Sprintf("%s.NewIntFromBigInt(vp_big(%q))", mq, iv), true
+		}
+		return fmt.Sprintf("%s.LegacyNewDecFromBigIntWithPrec(vp_big(%q), 18)", mq, iv), true
+	case "time.Time":
+		v := get(t)
+		if v == nil {
+			return "", false
+		}
+		iv, ok := sexpInt(v)
+		return fmt.Sprintf("%s.Unix(0, %s)", q(T.(*types.Named).Obj().Pkg()), iv), ok
+	}
 	switch u := T.Underlying().(type) {
 	case *types.Basic:
 		v := get(t)
@@ -343,6 +367,10 @@ func (x *Exec) valueTerms(T types.Type, t string, depth int, out *[]string) {
 			x.valueTerms(u.Elem(), sx("select", sx("arr_"+srt, t), add(sx("off_"+srt, t), num(int64(i)))), depth+1, out)
 		}
 	case *types.Struct:
+		if _, special := specialSorts[namedPath(T)]; special {
+			*out = append(*out, t)
+			return
+		}
 		si := x.c.structInfo(T)
 		if si == nil {
 			return
@@ -383,8 +411,10 @@ func (x *Exec) findCandidate(o *Oblig, workDir string, timeoutS int) *candidate 
 		}
 	}
 	x.unfoldLevels = 6
+	x.exactDec = true
 	q := x.buildQueryExtra(o, false, extra)
 	x.unfoldLevels = 0
+	x.exactDec = false
 	var terms []string
 	for _, p := range x.fn.Params {
 		v := x.env0[p]
@@ -431,10 +461,12 @@ func (x *Exec) findCandidate(o *Oblig, workDir string, timeoutS int) *candidate 
 		if x.fn.Pkg != nil {
 			pkg = x.fn.Pkg.Pkg
 		}
+		c.Imports = map[string]string{}
 		q := func(p *types.Package) string {
 			if p == pkg {
 				return ""
 			}
+			c.Imports[p.Path()] = p.Name()
 			return p.Name()
 		}
 		for _, p := range x.fn.Params {
@@ -509,6 +541,10 @@ func rewriteGo(e ast.Expr) ast.Expr {
 			}
 			return call
 		}
+		switch e.Op {
+		case token.LSS, token.LEQ, token.GTR, token.GEQ:
+			return &ast.BinaryExpr{X: &ast.CallExpr{Fun: ast.NewIdent("vp_cmp"), Args: []ast.Expr{a, b}}, Op: e.Op, Y: &ast.BasicLit{Kind: token.INT, Value: "0"}}
+		}
 		return &ast.BinaryExpr{X: a, Op: e.Op, Y: b}
 	case *ast.UnaryExpr:
 		return &ast.UnaryExpr{Op: e.Op, X: rewriteGo(e.X)}
@@ -569,7 +605,14 @@ func (x *Exec) replayPure(repo, verif string, o *Oblig, clause Clause, c *candid
 		return false, "", "clause not translatable: " + err.Error()
 	}
 	var sb strings.Builder
-	fmt.Fprintf(&sb, "package %s\n\nimport (\n\t\"testing\"\n\t\"bytes\"\n\t\"reflect\"\n\tvpsha \"crypto/sha256\"\n)\n\nvar _ = bytes.Equal\nvar _ = reflect.DeepEqual\nvar _ = vpsha.Sum256\n\n", pkg.Name())
+	extraImp := ""
+	for path, name := range c.Imports {
+		if path == "bytes" || path == "reflect" || path == "testing" || path == "math/big" {
+			continue
+		}
+		extraImp += fmt.Sprintf("\t%s %q\n", name, path)
+	}
+	fmt.Fprintf(&sb, "package %s\n\nimport (\n\t\"testing\"\n\t\"bytes\"\n\t\"reflect\"\n\tvpbig \"math/big\"\n\tvpsha \"crypto/sha256\"\n%s)\n\nvar _ = bytes.Equal\nvar _ = reflect.DeepEqual\nvar _ = vpsha.Sum256\n\n", pkg.Name(), extraImp)
 	twins, _ := os.ReadFile(filepath.Join(verif, "replay", "twins.go.txt"))
 	sb.Write(twins)
 	fmt.Fprintf(&sb, "\nfunc TestVerifReplay(t *testing.T) {\n")
